@@ -196,7 +196,15 @@ def isolation_pairs(rep, d) -> None:
         return gen.mkdoc({"X": {"type": "object", "properties": {"b": b}}, "Mid": {"allOf": [R("X"), {"type": "object", "properties": {"m": R("Leaf")}}]}, "Leaf": {"type": "object", "properties": {"v": S, "e": dict(enum)}},
                           "Other": {"type": "object", "properties": {"leaf": R("Leaf"), "leaves": {"type": "object", "additionalProperties": R("Leaf")}}}},
                          {"/x": {"get": {"operationId": "x", "responses": ok(R("Other"))}}})
-    fams = {"shared-component-enum": (shared_component_enum, {"X", "D"}), "equal-inline-enum": (equal_inline_enum, {"Pet"}), "chain-with-siblings": (chain_with_survivor_siblings, {"X", "Mid"})}
+    def overridden_path_parameter(b):
+        # the path item declares a parameter whose schema is bad; one operation redeclares it (same name and location) with a good schema and is untouched
+        # by the fault, the other inherits it
+        return gen.mkdoc({}, {"/things/{id}": {"parameters": [{"name": "q", "in": "query", "schema": b}, {"name": "id", "in": "path", "required": True, "schema": S},
+                                                              {"name": "X-H", "in": "header", "schema": b}],
+                                               "get": {"operationId": "overrides", "parameters": [{"name": "q", "in": "query", "schema": S}, {"name": "X-H", "in": "header", "schema": {"type": "integer"}}],
+                                                       "responses": ok(S)},
+                                               "post": {"operationId": "inherits", "responses": ok(S)}}})
+    fams = {"overridden-path-parameter": (overridden_path_parameter, {"inherits"}), "shared-component-enum": (shared_component_enum, {"X", "D"}), "equal-inline-enum": (equal_inline_enum, {"Pet"}), "chain-with-siblings": (chain_with_survivor_siblings, {"X", "Mid"})}
     jobs = []
     for name, (mk, aff) in fams.items():
         jobs += [(mk(bad), str(d / f"iso-{name}-faulty"), {}), (mk(good), str(d / f"iso-{name}-repaired"), {})]
